@@ -87,6 +87,16 @@ FAULTS_ANY = [
     ('UnknownVariable', 'zz', lambda old: ('func', [('p1', ('var', 'zz'))], old)),
     ('UnknownVariable', 'zz', lambda old: ('arrcomp', ('var', 'q1'), [('for', 'q1', ('array', [])), ('if', ('var', 'zz'))])),
     ('UnknownVariable', 'q2', lambda old: ('arrcomp', ('num', 1.0), [('for', 'q1', ('var', 'q2')), ('for', 'q2', ('array', []))])),
+    # a comprehension variable is not in scope in its own iterable
+    ('UnknownVariable', 'q1', lambda old: ('arrcomp', ('var', 'q1'), [('for', 'q1', ('var', 'q1'))])),
+    ('UnknownVariable', 'q2', lambda old: ('arrcomp', old, [('for', 'q1', ('array', [])), ('for', 'q2', ('array', [('var', 'q2')]))])),
+    ('UnknownVariable', 'q1', lambda old: ('objcomp', [], ('var', 'q1'), False, ('num', 1.0), [('for', 'q1', ('std', 'objectFieldsEx', [('var', 'q1'), ('false',)]))])),
+    ('UnknownVariable', 'q1', lambda old: ('arrcomp', ('num', 1.0), [('for', 'q0', ('array', [])), ('if', ('var', 'q1')), ('for', 'q1', ('array', []))])),
+    # a function parameter is not visible outside the function, a local not outside its body
+    ('UnknownVariable', 'p1', lambda old: ('array', [('func', [('p1', None)], old), ('var', 'p1')])),
+    ('UnknownVariable', 'u1', lambda old: ('binary', 'add', ('local', [('u1', None, ('num', 1.0))], ('var', 'u1')), ('var', 'u1'))),
+    # object locals are not visible in a sibling object nor in the computed field name
+    ('UnknownVariable', 'l1', lambda old: ('array', [('object', [('local', 'l1', None, ('num', 1.0))]), ('object', [('fix', 'a', False, 'd', None, ('var', 'l1'))])])),
     ('UnknownVariable', 'l1', lambda old: ('object', [('local', 'l1', None, ('num', 1.0)), ('dyn', ('var', 'l1'), False, 'd', None, old)])),
     ('RepeatedLocalName', 'u1', lambda old: ('local', [('u1', None, ('num', 1.0)), ('u1', None, ('num', 2.0))], old)),
     ('RepeatedLocalName', 'u1', lambda old: ('object', [('local', 'u1', None, ('num', 1.0)), ('fix', 'a', False, 'd', None, ('num', 1.0)),
